@@ -322,6 +322,9 @@ func untypedComparable(pkg *Package, v *types.Basic, varg *Element, t types.Type
 		case *types.Named:
 			t = pkg.cb.getUnderlying(tt)
 			goto retry
+		case *types.Alias:
+			t = types.Unalias(tt)
+			goto retry
 		}
 	} else {
 		switch u := getUnderlying(pkg, t).(type) {
